@@ -123,7 +123,7 @@ SPECIAL = {"pithist": "PitHist", "obsfcst": "ObsFcst", "timeseries": "TimeSeries
            "performance": "Performance", "invreliability": "InvReliability", "murphy": "Murphy",
            "bsdecomp": "BsDecomp", "igncontrib": "IgnContrib", "economicvalue": "EconomicValue",
            "marginal": "Marginal"}
-PLOT_METHOD = {"rank": "plot_rank", "impact": "plot_impact", "map": "map", "mapimpact": "plot_mapimpact"}
+PLOT_METHOD = {"rank": "plot_rank", "impact": "plot_impact", "map": "map", "mapimpact": "plot_mapimpact", "maprank": "map"}
 
 
 def make_output(name, o, data):
@@ -157,7 +157,7 @@ def make_output(name, o, data):
     if "x" in o and pl.supports_x:
         pl.axis = verif.axis.get(o["x"])
     pl.figsize = None
-    if name == "rank":
+    if name in ("rank", "maprank"):
         pl.show_rank = True
     return pl
 
@@ -258,7 +258,8 @@ def read_figure():
             arr = res.get_array()
             out.append({"ax": axes.index(res.axes), "kind": "pts", "label": str(res.get_label()),
                         "x": off[:, 0], "y": off[:, 1], "s": np.asarray(res.get_sizes(), float).flatten(),
-                        "c": None if arr is None else np.asarray(arr, float).flatten(), "src": src})
+                        "c": None if arr is None else np.asarray(arr, float).flatten(), "src": src,
+                        "clim": res.get_clim(), "fc": np.asarray(res.get_facecolor(), float).reshape(-1, 4)})
     del _calls[:]
     return out
 
@@ -364,7 +365,7 @@ def render_cli(name, opts, ds):
         argv = ["verif"] + files
         if name in ("hist", "sort"):
             argv += ["-m", opts["m"], "-" + name]
-        elif name in ("standard", "rank", "impact", "map"):
+        elif name in ("standard", "rank", "impact", "map", "maprank", "mapimpact"):
             argv += ["-m", opts["m"]]
             if name != "standard":
                 argv += ["-type", name]
@@ -420,7 +421,7 @@ def select(name, recs, names):
             keep = True
         elif name == "against" and core and r["kind"] == "line":
             keep = not (r["zorder"] == 100 and r["ls"] == "--")      # the 1:1 line
-        elif name in ("impact", "map", "mapimpact") and core and r["kind"] in ("pts", "bar"):
+        elif name in ("impact", "map", "mapimpact", "maprank") and core and r["kind"] in ("pts", "bar"):
             keep = True
         elif name == "invreliability" and core and r["kind"] == "line" and (r["label"] == "" or r["label"].startswith("_child")):
             keep = True                   # curves of the 2nd, 3rd ... level: label "" (matplotlib stores "_child<n>")
